@@ -318,7 +318,12 @@ def record_one(rnd, rid, tmpdir):
     if lay.negate_setting:
         src['negate_amount'] = True
     spec = resolve_source_format(dict(src))['_format_spec']
-    txns = parse_generic_csv(path, spec, [], source_name=src['name'], decimal_separator='.' if dec == 'dot' else ',')
+    raised = ''
+    try:
+        txns = parse_generic_csv(path, spec, [], source_name=src['name'], decimal_separator='.' if dec == 'dot' else ',')
+    except (TypeError, KeyError, AttributeError, IndexError, ZeroDivisionError, ValueError, AssertionError, UnicodeError) as ex:
+        # reading is TOTAL on these files: whatever one row does, the reader returns (a malformed row is skipped on its own)
+        txns, raised = [], '%s: %s' % (type(ex).__name__, ex)
     tmap = []
     if lay.mode == 'template':
         seen = set()
@@ -352,8 +357,8 @@ def record_one(rnd, rid, tmpdir):
         if t['source'] != src['name']:
             bad_source = True
     cfg = {'fmt': 'f', 'sign': lay.sign, 'mode': lay.mode, 'hasloc': lay.hasloc, 'hasextra': lay.hasextra, 'dec': dec}
-    return {'id': rid, 'rows': rows, 'cfg': cfg, 'header': header, 'obs': obs, 'tmap': tmap, 'badsource': bad_source,
-            '_text': text, '_source': {k: v for k, v in src.items() if k != 'file'}, '_dec': dec, '_n': len(obs),
+    return {'id': rid, 'rows': rows, 'cfg': cfg, 'header': header, 'obs': obs, 'tmap': tmap, 'badsource': bad_source, 'raised': bool(raised),
+            '_raised': raised, '_text': text, '_source': {k: v for k, v in src.items() if k != 'file'}, '_dec': dec, '_n': len(obs),
             '_mixed': 0 < len(obs) < len(rows) - (1 if header else 0)}
 
 
